@@ -19,6 +19,16 @@ def deductive(rep: Report, prop: str, funcs: list[str], contracts_mod: str, incl
     """Verify funcs with pyvc and add the obligations relevant for `prop` to the report."""
     mod = importlib.import_module(contracts_mod)
     results = verify(funcs, contracts_mod)
+    # assumption scan (DESIGN 2.8 #5): every assumed (trusted) contract of the registry is reported
+    for q, c in mod.REGISTRY.items():
+        if getattr(c, "assume_only", False):
+            line = f"assumed contract: {q}" + (f" ({c.notes})" if c.notes else "")
+            if line not in rep.assumptions:
+                rep.assumptions.append(line)
+        elif c.notes and q.endswith("getRules") and "supported configuration" in c.notes:
+            line = f"assumed: {q}: {c.notes}"
+            if line not in rep.assumptions:
+                rep.assumptions.append(line)
     for q in funcs:
         r = results[q]
         c = mod.REGISTRY[q]
